@@ -155,4 +155,97 @@ def sendMults (outs : List Nat) : List (Nat × Bool) :=
   (outs.foldl (fun (acc : List (Nat × Bool) × List Nat) o =>
     (acc.1 ++ [(o, !acc.2.contains o)], o :: acc.2)) ([], [])).1
 
+
+/-! ### Table-backed non-primitive rows (generic row kind)
+
+`Op::NonPrimitiveOpWithExecutor` in `generate_preprocessed_columns`: first the plug-in's
+`executor.preprocess` registers *reads* (`register_non_primitive_witness_reads`: the slot's read
+count goes up whatever its state), then the generic scan walks the first `num_exposed_outputs`
+output groups: a slot that is already defined is recorded in `dup_npo_outputs` and read, any other
+is defined by this row. In the vocabulary of this file a read is the request `⟨s, false, false⟩`
+(always a reader) and an exposed output the request `⟨s, true, false⟩` (creator unless defined),
+so a non-primitive row is just a list of requests computed by a per-plug-in function, and the
+role scan and its invariant (`P3R.C09`) go through unchanged.
+
+What the plug-in *conversions* of `circuit-prover` then do with the scan's result is modelled
+separately (`npoMult`, `freeMult`): they are not part of the scan and two of their rules break the
+invariant (findings F-C09N-1, F-C09N-3); the driver prints the converted counts, which the bus audit
+of the real AIRs must reproduce. -/
+
+structure NpoRow where
+  /-- op type (0 is reserved for primitive rows) -/
+  table : Nat
+  /-- slots registered with `register_non_primitive_witness_reads`, in order -/
+  reads : List Nat
+  /-- exposed outputs (`num_exposed_outputs` leading groups), in order -/
+  outs : List Nat
+  /-- sends that bypass the scan: `recompose/coeff` coefficient tuples -/
+  frees : List Nat
+deriving Repr
+
+def NpoRow.requests (r : NpoRow) : List Request :=
+  r.reads.map (fun s => ⟨s, false, false⟩) ++ r.outs.map (fun s => ⟨s, true, false⟩)
+
+inductive ROp (K : Type) where
+  | prim (op : Op K)
+  | npo (r : NpoRow)
+
+def ROp.requests {K} (privs hints defined : List Nat) : ROp K → List Request
+  | .prim op => requestsOf privs hints defined op
+  | .npo r => r.requests
+
+/-- The main loop of `generate_preprocessed_columns` over primitive and non-primitive ops. -/
+def scanR {K} (privs hints : List Nat) (ops : List (ROp K)) : RoleState :=
+  ops.foldl (fun s op => (op.requests privs hints s.defined).foldl RoleState.serve s)
+    { defined := [], reads := [], events := [] }
+
+/-- Per-plug-in request functions, mirroring `preprocess_inputs` / `preprocess_outputs` /
+`preprocess_flags` of `circuit/src/ops/poseidon_perm/executor.rs`. `ins`: the op's input groups
+(limbs, then accumulator, direction bit, high bit), `outs` its output groups; `sumRead`: the
+accumulator read that `poseidon_preprocess_for_prover` adds when the row ends a Merkle chain. -/
+def posRow (table : Nat) (merkle arity4 : Bool) (widthExt rateExt : Nat) (sumRead : Bool)
+    (ins outs : List (List Nat)) : NpoRow :=
+  let limbs := (ins.take widthExt).flatten
+  -- arity-2 Merkle rows register no read for witness-fed limbs; sponge rows and arity-4 rows do
+  let limbReads := if merkle && !arity4 then [] else limbs
+  let flagReads :=
+    if arity4 && merkle then (ins.getD (widthExt + 1) []) ++ (ins.getD (widthExt + 2) [])
+    else if sumRead then ins.getD widthExt [] else []
+  { table := table, reads := limbReads ++ flagReads, outs := (outs.take rateExt).flatten, frees := [] }
+
+/-- `RecomposeExecutor::preprocess`: the output is exposed; with coefficient lookups every
+coefficient is sent by the row without going through the scan. -/
+def recRow (table : Nat) (coeffCtl : Bool) (ins outs : List (List Nat)) : NpoRow :=
+  { table := table, reads := [], outs := (outs.take 1).flatten,
+    frees := if coeffCtl then ins.getD 0 [] else [] }
+
+/-- Is the row's accumulator exposed? `mmcs_merkle_flag · next.new_start`, with the table's padding
+rule of `poseidon_preprocess_for_prover` (`flags i = (merkle ∧ accumulator wired, new_start)`). -/
+def sumExposed (flags : List (Bool × Bool)) (i : Nat) : Bool :=
+  let n := flags.length
+  let next :=
+    if i + 1 < n then (flags.getD (i + 1) (false, false)).2
+    else if n.nextPowerOfTwo > n then true
+    else (flags.getD 0 (false, false)).2
+  (flags.getD i (false, false)).1 && next
+
+/-- Tag of every request, parallel to the scan's events: (table, is an exposed-output request). -/
+def ROp.tags {K} (privs hints : List Nat) : ROp K → List (Nat × Bool)
+  | .prim op => (requestsOf privs hints [] op).map fun _ => (0, false)
+  | .npo r => r.reads.map (fun _ => (r.table, false)) ++ r.outs.map (fun _ => (r.table, true))
+
+/-- Signed multiplicity of one scan event after the plug-in conversion: an exposed output of table
+`t` on a slot that `dup_npo_outputs[t]` contains is sent with −1 — also by the row that created it
+(the flag is per table and slot, not per row). -/
+def npoMult (reads : List (Nat × Nat)) (dups : List (Nat × Nat)) (e : Nat × Role) (tag : Nat × Bool) : Int :=
+  if tag.2 && tag.1 != 0 && dups.contains (tag.1, e.1) then -1 else eventMult reads e
+
+/-- `dup_npo_outputs`: exposed-output requests that were served as readers. -/
+def dupsOf (evs : List (Nat × Role)) (tags : List (Nat × Bool)) : List (Nat × Nat) :=
+  (evs.zip tags).filterMap fun (e, t) => if t.2 && t.1 != 0 && e.2 == .reader then some (t.1, e.1) else none
+
+/-- `recompose/coeff`: the coefficient tuple's multiplicity. -/
+def freeMult (reads : List (Nat × Nat)) (hints : List Nat) (s : Nat) : Int :=
+  if hints.contains s then (readsOf reads s : Int) else 0
+
 end P3R
